@@ -5,6 +5,7 @@
   (`programs_lines`).
 -/
 import Scc.RV.RefInit
+import Scc.RV.RefSwitch
 import Scc.Props.C06Generic
 
 set_option linter.unusedVariables false
@@ -20,18 +21,38 @@ open Scc.Props.C06Generic (outAfter WithinCapacity Reachable EnoughHeap CodeFits
 open Scc.Heap (HState InvS InvW)
 open Scc.Heap.Refine (HRef FrLe Room)
 
-/-- the statements of the run: no `print` (RV64 cannot print), no heap -/
-def StmtOK : Stmt → Prop
-  | .lit _ _ next _ => StmtOK next
-  | .op _ _ _ _ next _ => StmtOK next
-  | .ifc _ _ _ t e => StmtOK t ∧ StmtOK e
-  | .exit _ => True
-  | .call _ _ => True
-  | .subst _ next => StmtOK next
-  | _ => False
+mutual
+  /-- the statements of the run: no `print` (RV64 cannot print), no closures (`create`, `invoke`) -/
+  def StmtOK : Stmt → Prop
+    | .lit _ _ next _ => StmtOK next
+    | .op _ _ _ _ next _ => StmtOK next
+    | .print _ _ _ _ => False
+    | .ifc _ _ _ t e => StmtOK t ∧ StmtOK e
+    | .exit _ => True
+    | .call _ _ => True
+    | .subst _ next => StmtOK next
+    | .letS _ _ _ _ next _ => StmtOK next
+    | .switch _ _ clauses _ => ClausesOK clauses
+    | .create _ _ _ _ _ _ _ => False
+    | .invoke _ _ _ _ => False
+  def ClausesOK : Clauses → Prop
+    | .nil => True
+    | .cons _ _ body rest => StmtOK body ∧ ClausesOK rest
+end
 
 /-- every definition `StmtOK` -/
 def ProgOK (p : AxCut.Prog) : Prop := ∀ d ∈ p.defs, StmtOK d.body
+
+theorem clausesOK_nth : ∀ {cs : Clauses} {i : Nat} {c : Clause}, ClausesOK cs → nthClause cs i = some c →
+    StmtOK c.body
+  | .nil, _, _, _, h => by simp [nthClause] at h
+  | .cons x ctx body rest, 0, c, hd, h => by
+    simp only [nthClause, Option.some.injEq] at h
+    subst h
+    exact hd.1
+  | .cons x ctx body rest, i + 1, c, hd, h => by
+    simp only [nthClause] at h
+    exact clausesOK_nth hd.2 h
 
 theorem FrLe.refl' (s : HState) {δ : Nat} : FrLe s s δ :=
   ⟨rfl, rfl, fun _ _ _ _ _ _ _ _ _ _ J J' => by
@@ -63,8 +84,9 @@ section Run3
 
 variable {mc : MonCfg} {α : Word → Word} {pr : RV.Program} {ks : List Code} (L : Loaded pr ks)
   (hndL : (labs ks).Nodup) (hheap : mc.heap = false) {ic : Nat} (hclean : labIdx ks "cleanup" = some ic)
+  (hfitX : codeBase + 4 * icount ks < 2 ^ 64)
 
-include L hndL hheap hclean in
+include L hndL hheap hclean hfitX in
 /-- THE THREE-WAY STEP: Theorem A's `TheoremA_full` with the RV64 machine carried along -/
 theorem step3 (hooks : Bool) (prog : AxCut.Prog) (c : Nat) (code : List MockOp) (nargs c' : Nat)
     (hcomp : (compile mockSym hooks prog).run c = .ok ((code, nargs), c'))
@@ -197,11 +219,79 @@ theorem step3 (hooks : Bool) (prog : AxCut.Prog) (c : Nat) (code : List MockOp) 
       exact ⟨cfg', hs', X', hm, by omega, FrLe.mono' hfr (by omega),
         ⟨pairs.map (·.1), ι, rfl, h4, h5, h6⟩, hok⟩
   | @letS _ Γ0 Γa x ty tag args sig next fv hn hsplit hkeys hs hs' hfr hnext =>
-    exact absurd hok (by simp [StmtOK])
+    have hlenA : Γa.length = args.length := keys_length hkeys
+    have hsplit' : Γ = Γ0 ++ Γa := hsplit
+    have hkA : args.length ≤ Γ.length := by rw [hsplit']; simp; omega
+    simp only [Pos.step]
+    by_cases hsh : Γ.length < args.length ∨ ρ.length ≠ Γ.length
+    · rw [if_pos hsh]; trivial
+    · rw [if_neg hsh]
+      cases hpos : Pos.tagPosition prog.types ty tag with
+      | error e => trivial
+      | ok pos =>
+        simp only
+        intro hcap hcap2
+        have hn0 : Γ.length - args.length = Γ0.length := by rw [hsplit']; simp; omega
+        have htake : Γ.take (Γ.length - args.length) = Γ0 := by
+          rw [← hlenA]; exact take_of_append hsplit'
+        have hkt : Ctx.keys (Γ'.take (Γ'.length - args.length)) = Γ0.keys := by
+          rw [hlenk, keys_take hk, htake]
+        have hargs14 : args.length ≤ 14 := by omega
+        obtain ⟨cfg', X', hs', ι', h1, hm, hfr, h2, h3, h4, h5, h6⟩ := let_x3 L hndL hheap RX
+          (by rw [hlenk]; exact hkA) (mem_ids_keys hkt hfr) hpos
+          (by
+            simp only [WithinCapacity, htake, List.length_append, List.length_singleton] at hcap
+            rw [hlenk, hn0]; exact hcap) hheapA X3h hrunX hatX
+          (hroom.mono (by omega))
+        refine ⟨cfg', hs', X', hm, h3, FrLe.mono' hfr (by omega),
+          ⟨_, ι', ?_, by rw [hlenk] at h4; exact h4, by rw [hlenk] at h5; exact h5, by rw [hlenk] at h6; exact h6⟩,
+          hok⟩
+        show Ctx.keys (Γ'.take (Γ.length - args.length) ++ [_]) =
+          Ctx.keys (Γ.take (Γ.length - args.length) ++ [_])
+        rw [htake, ← hlenk]
+        exact keys_append hkt rfl
   | @create _ Γn Γe Γc x ty clauses next fc fn d hn hsplit hkeys hd hm hcl hfr hnext =>
     exact absurd hok (by simp [StmtOK])
   | @switch _ Γ0 b x ty cs fv d hn hsplit hb hd hm hcl =>
-    exact absurd hok (by simp [StmtOK])
+    subst hsplit
+    obtain ⟨ρ', v, rfl, hρ', hv⟩ := Pos.env_last henv
+    have hbid : b.var.id = x.id := congrArg (·.1) hb
+    have hbchi : b.chi = .prd := congrArg (·.2.1) hb
+    have hbty : b.ty = ty := congrArg (·.2.2) hb
+    rw [hbchi, hbty] at hv
+    have hlen : (ρ' ++ [v]).length = (Γ0 ++ [b]).length := by
+      rw [henv.length_eq, Pos.chiTys_length]
+    have hcnd : ¬ (b.var.id ≠ x.id ∨ (ρ' ++ [v]).length ≠ (Γ0 ++ [b]).length) := by
+      simp [hbid, hlen]
+    cases hv with
+    | obj hd' hx hf =>
+      rename_i d' tag xt fields
+      have := Pos.lookupTypeDecl_unique hd hd'
+      subst this
+      obtain ⟨cl, hc1, hc2, hc3⟩ := Pos.nthClause_ok d.xtors cs tag xt hm hx
+      have hfl : fields.length = cl.ctx.length := by
+        rw [hf.length_eq, hc2, Pos.chiTys_length]
+      simp only [Pos.step, List.getLast?_concat, if_neg hcnd, hc1, hfl, ne_eq, not_true_eq_false,
+        if_false, List.dropLast_concat]
+      intro hcap hcap2
+      obtain ⟨Γ0', b', rfl, hk0, hkb⟩ := keys_snoc hk
+      have hb'id : b'.var.id = x.id := by
+        have := congrArg (·.1) hkb
+        simp only [Binding.key] at this
+        rw [this]; exact hbid
+      have hkinds : fields.map Sim2.kindOf = Mock.kindsOf cl.ctx := by
+        rw [kinds_of_fieldsTyped hf, hc2, chiTys_fst]
+      have hfr : x.id ∉ Γ0.ids := by rw [← hbid]; exact fresh_of_nodup_snoc hn
+      obtain ⟨k, cfg', X', hs', h1, hm, hfr', h2, h3, h4, h5, h6⟩ := switch_x3 L hndL hheap hfitX RX
+        hfits hb'id (mem_ids_keys hk0 hfr) hc1 hkinds
+        (by
+          simp only [WithinCapacity, List.length_append] at hcap
+          rw [keys_length hk0]; exact hcap) X3h hrunX hatX
+        (by
+          simp only [List.length_append] at hcap2
+          rw [keys_length hk0]; exact hcap2)
+      exact ⟨cfg', hs', X', hm, by omega, FrLe.mono' hfr' (by omega),
+        ⟨Γ0' ++ cl.ctx, ι, keys_append hk0 rfl, h4, h5, h6⟩, clausesOK_nth hok hc1⟩
   | @invoke _ Γa b x tag ty args sig hn hsplit hb hs hs' =>
     exact absurd hok (by simp [StmtOK])
 
@@ -210,7 +300,7 @@ theorem withinCapacity_of_le {Γ : Ctx} (h : Γ.length ≤ 14) : WithinCapacity 
   show 2 * Γ.length + 2 < 1000001
   omega
 
-include L hndL hheap hclean in
+include L hndL hheap hclean hfitX in
 /-- THE THREE-WAY RUN: a terminating run of the positional machine from a represented state is reproduced
 by the RV64 machine -/
 theorem run3_aux (hooks : Bool) (prog : AxCut.Prog) (c : Nat) (code : List MockOp) (nargs c' : Nat)
@@ -226,7 +316,7 @@ theorem run3_aux (hooks : Bool) (prog : AxCut.Prog) (c : Nat) (code : List MockO
       ∃ XL, Reach pr mc X XL ∧ ∀ fuel', (runLoop pr mc (fuel' + 1) XL).res = .done v
   | 0, st, acc, cfg, hs, X, v, _, _, _, _, _, _, h => by simp [Pos.runState] at h
   | fuel + 1, st, acc, cfg, hs, X, v, T, hcap, R, hok, hnext, hroom, h => by
-    have hsim := step3 L hndL hheap hclean hooks prog c code nargs c' hcomp hsafe htp hfit
+    have hsim := step3 L hndL hheap hclean hfitX hooks prog c code nargs c' hcomp hsafe htp hfit
       DX hprog st cfg hs X R T (by unfold EnoughHeap; omega) hok (hroom.mono (by omega))
     have hsafe' := Pos.step_safe htp st T
     have hw : ∃ rs lin lazy live F, InvS hs rs [] lin lazy live F := by
@@ -367,7 +457,7 @@ theorem programs_lines (p : AxCut.Prog) (args : List Word) (hooks : Bool) (instr
     (hsafe : LabelSafe p = true) (htp : LinTypedProg p) (hprog : ProgOK p)
     (hcompM : (compile mockSym hooks p).run 0 = .ok ((ops, nargs), c')) (hfit : CodeFits ops)
     (hcompX : (compile rvBackend hooks p).run 0 = .ok ((instrs, nargs), cX))
-    (hnd : (labs (instrs ++ [Code.LAB "cleanup"])).Nodup)
+    (hnd : (labs (instrs ++ [Code.LAB "cleanup"])).Nodup) (hfitX : codeBase + 4 * instrs.length < 2 ^ 64)
     (hd : p.defs.head? = some d0) (hentry : ∀ b ∈ d0.ctx, b.chi = .ext ∧ b.ty = .i64)
     (hcap : ∀ st, Reachable p ⟨d0.ctx, args.map .int, d0.body⟩ st → st.ctx.length ≤ 14)
     (fuel : Nat) (v : Word) (hfuel : fuel + 1 < 2 ^ 64)
@@ -477,7 +567,28 @@ theorem programs_lines (p : AxCut.Prog) (args : List Word) (hooks : Bool) (instr
       (Scc.Heap.init heapBase (heapBase + mc.heapBytes))
       (setPS { regs := regs, mem := ∅, pc := k1.length } (k1.length + 1) 0) :=
     ⟨d0.ctx, id, rfl, RX, X3R.setPS X3a _ _, kx, kx', ditems, hdrun, hat1⟩
-  obtain ⟨XL, g1, g2⟩ := run3_aux L hndL hheap hclean hooks p 0 ops nargs c' hcompM hsafe htp hfit
+  have hfitK : codeBase + 4 * icount ks < 2 ^ 64 := by
+    have h1 : icount ks ≤ instrs.length := by
+      rw [e1, e2, icount_append, icount_append, icount_single]
+      have hz : icount k1 = 0 := by
+        unfold icount
+        rw [List.length_eq_zero_iff, List.filter_eq_nil_iff]
+        intro y hy
+        have := hk1c y hy
+        cases y <;> simp [Code.isComment] at this
+        simp [Code.isInstr]
+      have hle : icount (Code.LAB (d0.name.print ++ "_") :: k2') ≤ (Code.LAB (d0.name.print ++ "_") :: k2').length := by
+        unfold icount; exact List.length_filter_le _ _
+      have hlen2 : (Code.LAB (d0.name.print ++ "_") :: k2').length ≤ instrs.length := by
+        rw [hinstr]
+        simp only [List.length_cons]
+        have := h2'.length_le
+        omega
+      rw [hz]
+      simp [Code.isInstr]
+      omega
+    omega
+  obtain ⟨XL, g1, g2⟩ := run3_aux L hndL hheap hclean hfitK hooks p 0 ops nargs c' hcompM hsafe htp hfit
     DX hprog fuel _ [] (initConfig a args) _ _ v T hcap R3
     (hprog d0 hmem) (by rw [hn1]; omega)
     (room_init (by decide) (by omega) (by omega)) hrun'
